@@ -276,9 +276,18 @@ func c03SelectForUpdate(r *vc.Run) {
 			where, args = pkWhere(t, t.Rows[rnd.Intn(len(t.Rows))], params)
 		}
 		sql := fmt.Sprintf("select * from %s where %s for update", t.Name, where)
+		ordered := many && rnd.Bool()
+		if ordered {
+			// the last rows in key order only: the rows asked about must be the rows returned, not the first matches
+			var ob []string
+			for _, p := range t.Def.PK {
+				ob = append(ob, t.Def.Cols[p].Name+" desc")
+			}
+			sql = fmt.Sprintf("select * from %s where %s order by %s limit %d for update", t.Name, where, strings.Join(ob, ", "), 1+rnd.Intn(2))
+		}
 		name := fmt.Sprintf("c03b-%04d", i)
 		feat := map[string]string{"part": "select-for-update", "pk": pk, "tc": mode, "explicit_tx": fmt.Sprint(explicit), "rows": map[bool]string{true: "many", false: "1"}[many], "params": fmt.Sprint(params),
-			"literal_string": fmt.Sprint(!params && strings.Contains(where, "'"))}
+			"literal_string": fmt.Sprint(!params && strings.Contains(where, "'")), "order_by_limit": fmt.Sprint(ordered)}
 		shape := featShape(feat)
 		// script the coordinator
 		rule := &faketc.Rule{Name: name, Match: func(q *faketc.Req) bool {
